@@ -82,7 +82,11 @@ class S(diff.DiffOperator):
         """Shift states"""
         # check shift method
         method, shift = get_shift_method(self.k, sm.coords)
-        nmax = sm.options.get("max_nstate") or self.nmax or np.inf
+        nmax = np.inf
+        for value in (sm.options.get("max_nstate"), self.nmax):
+            if value is not None and (np.ndim(value) > 0 or value):
+                nmax = value
+                break
 
         if method == "shift-1d":
             # basic 1d shift
@@ -107,9 +111,11 @@ class S(diff.DiffOperator):
             shift = append_batch_axes(shift, sm.ndim)
 
             # apply (not inplace)
+            prune = sm.options.get("prune")
+            prune = self.prune if prune is None else prune
             opts = {
-                "prune": bool(self.prune),
-                "tol": self.prune,
+                "prune": bool(prune),
+                "tol": prune,
                 "nmax": nmax,
             }
             states, coords = shiftnd(sm.states, sm.coords, shift, **opts)
@@ -128,7 +134,8 @@ class S(diff.DiffOperator):
             shift = append_batch_axes(shift, sm.ndim)
 
             # kgrid
-            kgrid = sm.options.get("kgrid") or self.kgrid
+            kgrid = sm.options.get("kgrid")
+            kgrid = self.kgrid if kgrid is None else kgrid
             if kgrid is None:
                 raise AttributeError("kgrid not set")
 
@@ -136,7 +143,8 @@ class S(diff.DiffOperator):
             ktvalue = sm.ktvalue
             coords = sm.coords * ktvalue
             shift = shift * ktvalue
-            prune = sm.options.get("prune") or self.prune
+            prune = sm.options.get("prune")
+            prune = self.prune if prune is None else prune
             if method == "shift-merge":
                 opts = {"prune": bool(prune), "tol": prune, "grid": kgrid}
                 states, wavenums = shiftmerge(sm.states, coords, shift, **opts)
@@ -290,6 +298,14 @@ def shift1d(states, n, *, inplace=False, nmax=None):
     return states
 
 
+def get_grid(grid, kdim):
+    """grid size per coordinate axis: a scalar, or one value per axis (the last one is repeated for further axes)"""
+    grid = np.atleast_1d(np.asarray(grid, dtype=float))
+    if grid.size < kdim:
+        grid = np.concatenate([grid, np.repeat(grid[-1:], kdim - grid.size)])
+    return grid[:kdim]
+
+
 def append_batch_axes(shift, ndim):
     """align the shift's batch axes with the first axes of a state matrix with `ndim` batch axes"""
     shift = np.asarray(shift)
@@ -393,7 +409,7 @@ def shiftmerge(states, wavenums, shift, *, grid=1, prune=True, tol=1e-8):
     sm = xp.asarray(states)
     wavenums = xp.asarray(wavenums)
     shift = common.expand_dims(xp.asarray(shift), -2)
-    grid = grid * xp.ones(wavenums.shape[-1])
+    grid = get_grid(grid, wavenums.shape[-1])
 
     # initial number of states
     n1 = sm.shape[-2]
@@ -526,7 +542,7 @@ def shiftprune(states, wavenums, shift, *, grid=1e-5, tol=1e-8):
     sm = xp.asarray(states)
     wavenums = xp.asarray(wavenums)
     shift = common.expand_dims(xp.asarray(shift), -2)
-    grid = grid * xp.ones(wavenums.shape[-1])
+    grid = get_grid(grid, wavenums.shape[-1])
 
     # initial number of states
     n1 = sm.shape[-2]
